@@ -107,6 +107,7 @@ func enumDM(c *core.Ctx, classLen int, allLengths bool) {
 }
 
 func c02Body(c *core.Ctx) {
+	defer seqPairs(c, "dm")
 	cl := pick(c, 5, 7)
 	enumDM(c, cl, c.Thorough())
 	c.R.Bound("class_words", fmt.Sprintf("all words <= %d over %q", cl, dmClass))
@@ -206,6 +207,7 @@ func enumQR(c *core.Ctx, classLen int, pairs bool, allLengths bool) {
 }
 
 func c01Body(c *core.Ctx) {
+	defer seqPairs(c, "qr")
 	cl := pick(c, 3, 4)
 	enumQR(c, cl, true, c.Thorough())
 	c.R.Bound("class_words", fmt.Sprintf("all words <= %d over %q x 4 levels x 4 modes", cl, qrClass))
@@ -350,6 +352,7 @@ func enumAztec(c *core.Ctx, classLen int, thorough bool) {
 }
 
 func c03Body(c *core.Ctx) {
+	defer seqPairs(c, "az")
 	cl := pick(c, 4, 5)
 	enumAztec(c, cl, c.Thorough())
 	c.R.Bound("class_words", fmt.Sprintf("all words <= %d over %q at (33%%, auto)", cl, azClass))
@@ -422,6 +425,7 @@ func enumPDF(c *core.Ctx, classLen, macroLen int, thorough bool) {
 }
 
 func c04Body(c *core.Ctx) {
+	defer seqPairs(c, "pdf")
 	cl, ml := pick(c, 5, 7), pick(c, 4, 5)
 	enumPDF(c, cl, ml, c.Thorough())
 	c.R.Bound("class_words", fmt.Sprintf("all words <= %d over %q (quick: levels 0,2; thorough: level 1 to length %d, other levels to 5)", cl, pdfClass, cl))
